@@ -242,6 +242,18 @@ def check_case(case, acc):
             got2 = _scores(obj, g)
             if any(abs(x - y) > 1e-9 for x, y in zip(got2, want)):
                 bad("stale-after-in-place-change", "scores of an object whose heading/size were changed in place (%s) are %s, a freshly built identical box gives %s" % (nm, got2, want))
+        # the orientation is the rotation its quaternion denotes: elements as they come from a file (not of unit length, never
+        # touched before the first scoring call) describe the same box
+        for scale_q in (2.0, 0.37):
+            e_raw, g_raw = G.mk3d(eb), G.mk3d(ga)
+            e_raw.state.orientation = _Q(*(scale_q * math.cos(byaw / 2), 0.0, 0.0, scale_q * math.sin(byaw / 2)))
+            g_raw.state.orientation = _Q(*(scale_q * math.cos(case["ya"] / 2), 0.0, 0.0, scale_q * math.sin(case["ya"] / 2)))
+            acc.exec(8)
+            for nm, pair in (("estimate", (e_raw, g)), ("ground truth", (e, g_raw))):
+                got3 = _scores(*pair)
+                if any(abs(x - y) > 1e-9 for x, y in zip(got3, (cd, pd, i2, i3))):
+                    bad("non-unit-quaternion", "scores %s when the %s's orientation is given by quaternion elements of norm %s, %s with the unit "
+                        "quaternion of the same rotation" % (got3, nm, scale_q, (cd, pd, i2, i3)))
     for ego in G.ego_menu(_SEED[0])[1:]:
         acc.exec(4)
         tf = G.transforms(ego)
